@@ -13,7 +13,7 @@ ASSUME = {
         "A-SIZE: DigitString size counters stay below 2^61 (ds_size_axiom); arguments `positions`/`position` are below 2^28 (preconditions)",
         "memory allocation never fails",
     ],
-    "C01": ["composition (the words of spell(n) executed in order give decimal(n)) is proved for en, es, fr (spelling drivers); for pt, it, de, nl it is NOT proved: the thorough tier gives bounded evidence only (tools/spell.py)",
+    "C01": ["composition (the words of spell(n) executed in order give decimal(n)) is proved for en, es, fr (n below 10^12) and pt (n below 10^6) (spelling drivers); for it, de, nl and pt from 10^6 up it is NOT proved: the thorough tier gives bounded evidence only (tools/spell.py)",
             "the drivers are stated on exec_group + format_and_value; the corollary for text2digits composes the driver with text2digits' own contract on paper; the scanner (number inside a sentence) is not covered by the drivers",
             "A-SPLIT / A-DASH (English and French hyphenated tens-units): str::split('-') is uninterpreted with one axiom (dash-free pieces joined by single dashes split back into them); the hoisted call exec_group(word.split('-')) is assumed to compute the fold of the word model over the parts",
             "WordSplitter (daachorse) contract assumed; Italian/German/Dutch values assumed to come from Default::default"],
@@ -21,7 +21,7 @@ ASSUME = {
     "C03": ["partial correctness: termination of iterator-driven loops and of the apply<->exec_group recursion is not proved"],
     "C04": ["multi-word ordinals: composition proved for en (all ranks below 10^12), es (1..1999, four forms) and fr (1..999999, masculine singular, separate words); for pt, it, de, nl not proved (bounded ordinal search in the thorough tier)"],
     "C05": ["f64 value = parse_f64(text), uninterpreted",
-            "decimal round trip: proved for en, es, fr as two machine-checked halves in two units (scan::drive_parser generic in the language; lemma_<c>_decimal per language) whose composition is one substitution on paper; for pt, it, de, nl not proved (bounded decimal search in the thorough tier)"],
+            "decimal round trip: proved for en, es, fr, pt (pt below 10^6) as two machine-checked halves in two units (scan::drive_parser generic in the language; lemma_<c>_decimal per language) whose composition is one substitution on paper; for it, de, nl not proved (bounded decimal search in the thorough tier)"],
     "C06": ["f64 value = parse_f64(text), uninterpreted"],
     "C07": ["the two-run statement validator(span) = occurrence is not proved (both directions of the validator, and the scanner's use of push, are specified per call)"],
     "C08": ["the pair statement over [0,99]^2 is a theorem at the level of the word model for en and es (first word of b after a; no conjunction); for the other languages and for the conjunction joiner the thorough tier sweeps that finite space exhaustively on the real crate (bounded stand-in)",
@@ -33,7 +33,7 @@ ASSUME = {
     "C13": ["the seven interpreters are contract-only stubs in unit fac (proved in their own units)"],
     "C14": ["no concurrency semantics in the verifier: Send + Sync by rustc's auto traits; history independence follows from the syntactic frame scan only on paper"],
     "C15": ["iter(stream) = batch(stream) is a two-run statement, not proved; the default bodies of the Token trait's hint methods are pinned text with an assumed contract (a change makes the unit undecided; the bounded stand-in then runs tokens that keep the defaults)"],
-    "C16": ["zero^z spell(n) is a theorem for en, es, fr (spelling drivers, every z and every n below 10^12); for pt, it, de, nl not proved (bounded zero-prefix search in the thorough tier)"],
+    "C16": ["zero^z spell(n) is a theorem for en, es, fr (every z, every n below 10^12) and pt (n below 10^6); for it, de, nl not proved (bounded zero-prefix search in the thorough tier)"],
     "C17": ["the two-run statement is not proved; char classes (is_alphanumeric, is_alphabetic, is_whitespace) are uninterpreted"],
     "C18": ["neighbours containing '-' go through the hoisted (assumed) hyphen path of apply"],
 }
